@@ -494,13 +494,17 @@ def guarded_case(rnd, cid, p=BN128, depth=None):
         a = rnd.choice(pool); c = rnd.choice(pool)
         kind = rnd.random()
         if kind < 0.5:
-            op = rnd.choice(["lt", "le", "ge", "eq", "ne", "mul", "truediv", "floordiv", "mod", "add", "and", "rshift"])
+            op = rnd.choice(["lt", "le", "ge", "eq", "ne", "mul", "truediv", "floordiv", "mod", "add", "and", "rshift", "pow"])
+            if op == "pow":
+                # a PUBLIC exponent 0 / 1 / 2: `x ** 0` is the constant one OF THE CURRENT REGION (LinComb.ONE is the guard wire there), `x ** 1`
+                # the operand object itself; the result goes on into the arithmetic of the region and of the code after it
+                c = b.int_lit(rnd.choice([0, 0, 0, 1, 2]))
             if op == "rshift" and rnd.random() < 0.8:
                 c = b.int_lit(rnd.randrange(0, 3))          # else: a secret shift count from the pool
             if op == "truediv" and rnd.random() < 0.5:
                 c = b.int_lit(rnd.choice([1, 2, 3, -2, 0]))
             r = b.emit(f"bin {op} r{a} r{c}", "?"); bodyops.append(op)
-            if op in ("mul", "add", "truediv") and rnd.random() < 0.7:
+            if op in ("mul", "add", "truediv", "pow") and rnd.random() < 0.7:
                 pool.append(r)
         elif kind < 0.55:
             b.emit(f"wrapb r{a}", "B"); bodyops.append("wrapb")      # LinCombBool(x): declaration as boolean
@@ -973,7 +977,7 @@ def selection(b, rc, then_fn=None, else_fn=None, then_val=None, else_val=None):
 
 
 THUNK_GADGETS = ["rshift", "rshift", "and", "or", "xor", "lt", "le", "ge", "gt", "eq", "ne", "to_bits_rt", "to_bits_bit", "floordiv", "mod",
-                 "mul", "add_int", "check_positive", "assert_cmp", "assert_nonzero", "assert_ne_int"]
+                 "mul", "add_int", "check_positive", "assert_cmp", "assert_nonzero", "assert_ne_int", "pow_int", "pow_int"]
 
 
 def thunk_gadget(rnd, b, x, y, vx, vy, bl, used, gadgets=None):
@@ -994,6 +998,12 @@ def thunk_gadget(rnd, b, x, y, vx, vy, bl, used, gadgets=None):
         return b.emit(f"bin add r{bit} r{y}", "L")
     if g == "add_int":
         return b.emit(f"bin {rnd.choice(['add', 'sub', 'mul'])} r{x} r{b.int_lit(rnd.randrange(1, 4))}", "L")
+    if g == "pow_int":
+        # a power with a PUBLIC exponent 0 / 1 / 2 (the degree-0 and degree-1 terms of a polynomial evaluated term by term): `x ** 0` hands out
+        # the region's constant one, `x ** 1` the operand itself; `c * term + y` is a fresh value either way
+        t = b.emit(f"bin pow r{x} r{b.int_lit(rnd.choice([0, 0, 0, 1, 2]))}", "L")
+        t = b.emit(f"bin mul r{t} r{b.int_lit(rnd.randrange(1, 8))}", "L")
+        return b.emit(f"bin add r{t} r{y}", "L")
     if g == "check_positive":
         return b.emit(f"call check_positive r{b.emit(f'bin sub r{x} r{y}', 'L')}", "B")
     if g == "assert_cmp":
